@@ -105,11 +105,14 @@ impl AggregateStreamInner {
             Vec::with_capacity(filter_state.supported_accumulators_info.len());
 
         for acc_info in &filter_state.supported_accumulators_info {
-            // Skip if we don't yet have a meaningful bound
+            // No bound yet for this aggregate (no non-NULL input seen so far): any row
+            // with a non-NULL argument still improves it, so nothing may be filtered out
+            // by the bounds of the other aggregates (the disjunction must not simply drop
+            // this term).
             let bound = {
                 let guard = acc_info.shared_bound.lock();
                 if (*guard).is_null() {
-                    continue;
+                    return Ok(lit(true));
                 }
                 guard.clone()
             };
@@ -255,10 +258,14 @@ fn scalar_cmp_null_short_circuit(
     v1: &ScalarValue,
     v2: &ScalarValue,
 ) -> Option<ScalarValue> {
-    match (v1, v2) {
-        (ScalarValue::Null, ScalarValue::Null) => Some(ScalarValue::Null),
-        (ScalarValue::Null, other) | (other, ScalarValue::Null) => Some(other.clone()),
-        _ => None,
+    // Typed NULLs (`Int64(None)`, what `min`/`max` evaluate to before any non-NULL
+    // input) count as "no bound" too, otherwise `scalar_min(Int64(None), Int64(5))`
+    // keeps the NULL forever
+    match (v1.is_null(), v2.is_null()) {
+        (true, true) => Some(v2.clone()),
+        (true, false) => Some(v2.clone()),
+        (false, true) => Some(v1.clone()),
+        (false, false) => None,
     }
 }
 
